@@ -104,7 +104,7 @@ CHECKS = {
                  "negative integer or a multi-byte varint. payload lengths: one case per (page size, length, cell kind); non-trivial = payload not wholly local. Distinct = fingerprint / key."),
         "assumptions": ["system libsqlite3 (3.40.1) validates the builder", "usable size == page size (reserved space is refused by sqlittle, see C15)"],
         "min_nontrivial": {"quick": 1500, "thorough": 8000},
-        "required_classes": ["rec:overflow=true", "rec:widehdr=true", "rec:depth=3", "rec:idxdepth=2", "rec:ps=65536", "lens:ps=512:index-interior", "lens:ps=65536:table-leaf", "rec:sqlite-validated", "rec:in-header-size-stale=true"],
+        "required_classes": ["rec:overflow=true", "rec:widehdr=true", "rec:depth=3", "rec:idxdepth=2", "rec:ps=65536", "lens:ps=512:index-interior", "lens:ps=65536:table-leaf", "rec:sqlite-validated", "rec:in-header-size-stale=true", "rec:text-not-utf8=true"],
         "timeout": {"quick": 300, "thorough": 1800},
         "jobs": [
             job("records", "c14", ["TestC14Records"], 1200, 12000, 3, 12),
@@ -192,6 +192,7 @@ CHECKS = {
     },
     "C12": {
         "level": "fault_enumeration",
+        "tools": ["peer"],
         "manifest": {
             "technique": "fault enumeration inside the property-based harness: rapid-generated databases (independent builder, and files written by SQLite with secondary indexes on WITHOUT ROWID tables and partial indexes); for every operation the number n of page reads is measured and the k-th read is failed for every k in 1..n as I/O error, short read (io.EOF) and 0xFF-filled page, plus a failing RLock; oracle = error returned and delivered rows a prefix of the fault-free result; plus structural damage: builder images in which index entries have lost their table row (an index select meeting such an entry must fail, having delivered exactly the rows before it)",
             "level_text": "Exhaustive in k (every page read from Open to the end of the operation) and in three fault kinds per (database, operation); databases and operation arguments are sampled. Oracle: err != nil and rows a positional prefix of the fault-free rows, no panic.",
@@ -203,12 +204,13 @@ CHECKS = {
                  "(table row fetched inside an index scan callback). Distinct = fingerprint of the database spec."),
         "assumptions": ["system libsqlite3 (3.40.1) writes the SQLite-built files and validates builder images before a report"],
         "min_nontrivial": {"quick": 60, "thorough": 1000},
-        "required_classes": ["builder:depth=2", "builder:depth=3", "sqlite-built", "faults-on-operations-with-nested-lookups"],
+        "required_classes": ["builder:depth=2", "builder:depth=3", "sqlite-built", "faults-on-operations-with-nested-lookups", "lock-failure:raw-shared-range", "lock-failure:sqlite-exclusive"],
         "timeout": {"quick": 300, "thorough": 1500},
         "jobs": [
             job("builder", "c12", ["TestC12Builder"], 150, 2500, 2, 8),
             job("sqlite", "c12", ["TestC12SQLite"], 60, 1000, 2, 6),
             job("inconsistent", "c12", ["TestC12Inconsistent"], 400, 8000, 2, 8),
+            job("lock", "c12", ["TestC12LockFailure"], 60, 1200, 1, 4),
         ],
     },
     "C05": {
@@ -354,7 +356,7 @@ CHECKS = {
                  "plus database/sql result sets read for k rows then closed / cancelled / drained. Non-trivial = at least one side action ran. Distinct = fingerprint of the spec."),
         "assumptions": ["Linux POSIX record locks; system libsqlite3 (3.40.1) is the writer"],
         "min_nontrivial": {"quick": 150, "thorough": 3000},
-        "required_classes": ["exit:normal", "exit:stop", "exit:error-column", "exit:fault", "exit:panic", "side:commit-attempt", "side:peer-hold", "side:other-file", "side:same-process-read", "side:nested-call-inside-callback", "side:same-process-close-then-read", "side:open-while-writer-pending:opened", "side:driver-failed-query-inside-read", "op:IndexedSelect-wr", "driver:cancel", "writer:open-txn", "writer:hot-journal", "writer:raw-exclusive", "concurrent:procs="],
+        "required_classes": ["exit:normal", "exit:stop", "exit:error-column", "exit:fault", "exit:panic", "side:commit-attempt", "side:peer-hold", "side:other-file", "side:same-process-read", "side:nested-call-inside-callback", "side:same-process-close-then-read", "side:open-while-writer-pending:opened", "side:driver-failed-query-inside-read", "side:driver-connect-inside-read", "op:IndexedSelect-wr", "driver:cancel", "writer:open-txn", "writer:hot-journal", "writer:raw-exclusive", "concurrent:procs="],
         "timeout": {"quick": 400, "thorough": 2400},
         "jobs": [
             job("held", "c06", ["TestC06Held"], 220, 4000, 3, 10),
